@@ -43,6 +43,10 @@ def sites(run: Run):
     from . import kernels
     if run.repo not in _SITES:
         _SITES[run.repo] = kernels.boundary_table(program(run), cyprogram(run))
+    # one repo-wide floor guards the front end (import / callee resolution); the
+    # per-property counts only need to be non-vacuous, so that dropping one
+    # kernel call in a refactoring is not mistaken for a broken analysis
+    run.floor("kernel call sites resolved repo-wide", len(_SITES[run.repo]), 40)
     return _SITES[run.repo]
 
 
